@@ -5,7 +5,7 @@ CONSTANTS
   MAXJOBS = 6
   MAXDEPTH = 4
   FixedD1 = FALSE
-  FixedD2 = FALSE
+  FixedD2 = TRUE
   FixedD3 = FALSE
   NSPELL = 120
 INIT SpellInit
@@ -13,6 +13,8 @@ NEXT SpellNext
 INVARIANT AllSpellingsDenote
 INVARIANT CanonicalIsConcrete
 INVARIANT CastRoundTrip
+INVARIANT CastAltTokens
+INVARIANT CastGrammar
 INVARIANT CastOrder
 POSTCONDITION SpellExport
 CHECK_DEADLOCK FALSE
